@@ -274,6 +274,15 @@ fn gen_case(r: &mut Rng, i: usize) -> Case {
     } else {
         r.pick(&templates).clone()
     };
+    // wrappers are operators too: EXPLAIN ANALYZE around a sample of the statements, COPY (query) TO
+    // (not around LIMIT: the row counters of producers a limit stopped reading are schedule-dependent)
+    let stmt = if r.chance(1, 5) && !stmt.contains(" limit ") {
+        format!("explain analyze {stmt}")
+    } else if stmt.starts_with("select") && r.chance(1, 8) {
+        format!("copy ({stmt}) to '$DIR/q{i}.csv'")
+    } else {
+        stmt
+    };
     Case { engine: engine.into(), stmt, setup, expect: String::new() }
 }
 
@@ -391,7 +400,7 @@ fn op_kind(name: &str) -> &'static str {
     match name {
         "scan" | "values" | "copy_from" => "leaf",
         "proj" | "filter" | "window" => "stream",
-        "order" | "agg" | "hashagg" | "sortagg" | "topn" | "copy_to" => "block",
+        "order" | "agg" | "hashagg" | "sortagg" | "topn" | "copy_to" | "analyze" => "block",
         "limit" => "limit",
         "join" | "hashjoin" => "join",
         "mergejoin" => "mjoin",
@@ -431,7 +440,8 @@ fn model_tree(nodes: &[Node], i: usize, fault: &Option<Fault>) -> String {
             if n.err { n.outs.len().to_string() } else { "none".into() },
             kid(0)
         ),
-        "block" => format!(
+        // (a DML node below a wrapper such as EXPLAIN ANALYZE: consumes everything, one count row)
+        "block" | "dml" => format!(
             "(block {} {ft} {} {outs} {} {})",
             n.id,
             nodes[n.kids[0]].outs.len(),
@@ -486,6 +496,37 @@ fn run_with(ctx: &mut Ctx, case: &Case, fault: Option<Fault>) -> Result<(RunOut,
     let p0 = PANICS.load(std::sync::atomic::Ordering::SeqCst);
     let outcome = run_sql(&ctx.rt, &db, &case.stmt.replace("$DIR", &ctx.work));
     verif::clear();
+    // EXPLAIN ANALYZE prints wall-clock times next to the row counts: drop them, keep the counts
+    let outcome = match outcome {
+        Outcome::Ok(_) if case.stmt.to_lowercase().starts_with("explain analyze") && case.stmt.contains(" limit ") => {
+            Outcome::Ok(vec![vec!["s:".to_string()]])
+        }
+        Outcome::Ok(rows) if case.stmt.to_lowercase().starts_with("explain analyze") => Outcome::Ok(
+            rows.into_iter()
+                .map(|r| {
+                    r.into_iter()
+                        .map(|c| match c.strip_prefix("s:").and_then(unhex).and_then(|b| String::from_utf8(b).ok()) {
+                            Some(text) => {
+                                let mut out = String::new();
+                                for (i, part) in text.split("time: ").enumerate() {
+                                    if i == 0 {
+                                        out += part;
+                                    } else {
+                                        let rest = part.find([' ', ',', '}']).map(|p| &part[p..]).unwrap_or("");
+                                        out += "time: _";
+                                        out += rest;
+                                    }
+                                }
+                                format!("s:{}", hex(out.as_bytes()))
+                            }
+                            None => c,
+                        })
+                        .collect()
+                })
+                .collect(),
+        ),
+        o => o,
+    };
     let panics = PANICS.load(std::sync::atomic::Ordering::SeqCst) - p0;
     let post = tables(ctx, &db);
     let trace = tr.lock().unwrap().clone();
@@ -607,7 +648,10 @@ fn run_case(ctx: &mut Ctx, cid: usize, case: &Case, thorough: bool, out: &mut Ve
         stack.push(i);
     }
     let nf_rows = match &nf.outcome { Outcome::Ok(r) => r.clone(), _ => vec![] };
-    let is_dml = op_kind(&nodes[nodes.len() - 1].name) == "dml";
+    // the DML node may sit below a wrapper (EXPLAIN ANALYZE INSERT …)
+    let dml_idx = nodes.iter().position(|n| op_kind(&n.name) == "dml");
+    let is_dml = dml_idx.is_some();
+    let root_is_dml = op_kind(&nodes[nodes.len() - 1].name) == "dml";
     rec(json!({"type": "nofault", "model_req": model_request(&nodes, &None),
         "nrows": nf_rows.len(), "dml": is_dml,
         "ops": nodes.iter().map(|n| n.name.clone()).collect::<Vec<_>>(),
@@ -654,9 +698,11 @@ fn run_case(ctx: &mut Ctx, cid: usize, case: &Case, thorough: bool, out: &mut Ve
             Outcome::Err(_) => ("err", vec![]),
             Outcome::Panic(_) => ("panic", vec![]),
         };
-        let count_value = if is_dml && rows.len() == 1 { rows[0].first().cloned() } else { None };
+        let count_value = if root_is_dml && rows.len() == 1 { rows[0].first().cloned() } else { None };
         rec(json!({"type": "fault", "node": f.node, "op": nodes[f.node].name, "opkind": op_kind(&nodes[f.node].name),
-            "k": f.k, "kind": f.kind, "fired": fr.trace.fired, "root": f.node == nodes.len() - 1, "dml": is_dml,
+            "k": f.k, "kind": f.kind, "fired": fr.trace.fired,
+            // "root": the fault sits at the DML node or above it, i.e. after the commit
+            "root": match dml_idx { Some(d) => f.node >= d, None => f.node == nodes.len() - 1 }, "dml": is_dml,
             "model_req": model_request(&nodes, &Some(f.clone())),
             "class": class, "nrows": rows.len(), "rows_eq": class == "ok" && bag_eq(&rows, &nf_rows),
             "rows_prefix": class == "ok" && rows.len() <= nf_rows.len() && rows[..] == nf_rows[..rows.len()],
@@ -666,7 +712,7 @@ fn run_case(ctx: &mut Ctx, cid: usize, case: &Case, thorough: bool, out: &mut Ve
             "reopen_eq_pre": fr.reopened.as_ref().map(|r| *r == pre2), "reopen_eq_now": fr.reopened.as_ref().map(|r| *r == fr.tables),
             "mkdirs": fr.trace.mkdirs, "publishes": fr.trace.publishes,
             // row counts of the chunks the DML root's child sent in this run (what was appended)
-            "consumed": if is_dml { let c = nodes[nodes.len() - 1].kids[0];
+            "consumed": if let Some(d) = dml_idx { let c = nodes[d].kids[0];
                 fr.trace.items.iter().filter(|x| x.0 == c).filter_map(|x| x.2.strip_prefix("ok:").and_then(|n| n.parse::<usize>().ok())).collect::<Vec<_>>() } else { vec![] },
             "delta": (total_rows(&fr.tables) - total_rows(&pre2)).abs(),
             "pre_same": pre2 == pre}));
